@@ -296,3 +296,78 @@ def load_known_findings():
         return {'known': [], 'fixed': []}
     with open(fn) as f:
         return json.load(f)
+
+
+def build_containers(variant='c', small=True):
+    """Build harness/ct_driver.c against the container sources of the working tree."""
+    d = scratch_dir('yv_ct_')
+    src = os.path.join(d, 'src')
+    shutil.copytree(SRC, src)
+    cxx = variant == 'cxx'
+    flags = SAN + ['-I' + src, '-w']
+    if small:
+        flags += ['-DOS_DEFAULT_SEGMENT_LENGTH=16', '-DVLO_DEFAULT_LENGTH=8']
+    files = ['allocate.c'] + (['hashtab.cpp', 'objstack.cpp', 'vlobject.cpp'] if cxx else ['hashtab.c', 'objstack.c', 'vlobject.c'])
+    objs = []
+    for f in files:
+        o = os.path.join(d, f.replace('.', '_') + '.o')
+        comp = 'clang++' if f.endswith('.cpp') else 'clang'
+        p = sh([comp] + (['-std=c++11'] if comp == 'clang++' else []) + flags + ['-c', os.path.join(src, f), '-o', o], check=False)
+        if p.returncode != 0:
+            raise BuildError('compile failed: %s\n%s' % (f, p.stderr[-2000:]))
+        objs.append(o)
+    o = os.path.join(d, 'ct_driver.o')
+    drv = os.path.join(VERIF, 'harness', 'ct_driver.c')
+    cmd = (['clang++', '-std=c++11', '-x', 'c++'] if cxx else ['clang']) + flags + ['-c', drv, '-o', o]
+    p = sh(cmd, check=False)
+    if p.returncode != 0:
+        raise BuildError('compile failed: ct_driver\n' + p.stderr[-3000:])
+    exe = os.path.join(d, 'ct_driver')
+    p = sh([('clang++' if cxx else 'clang')] + SAN + objs + [o, '-o', exe], check=False)
+    if p.returncode != 0:
+        raise BuildError('link failed: ' + p.stderr[-3000:])
+    return exe
+
+
+def run_containers(exe, lines, timeout=600):
+    """lines: list of 'id op op ...'.  One process per shard; a crash loses the rest of the shard,
+    so every case also gets its own process when its shard died."""
+    d = scratch_dir('yv_ctrun_')
+    n = min(NPROC, max(1, len(lines) // 20))
+    env = dict(os.environ)
+    env['ASAN_OPTIONS'] = ASAN_ENV
+    env['UBSAN_OPTIONS'] = 'print_stacktrace=1:halt_on_error=1'
+    res = {}
+
+    def run_chunk(ch, tag):
+        fn = os.path.join(d, 'c%s.txt' % tag)
+        open(fn, 'w').write('\n'.join(ch) + '\n')
+        p = subprocess.run([exe, fn], stdout=subprocess.PIPE, stderr=subprocess.PIPE, text=True, env=env, timeout=timeout)
+        done = 0
+        for l in p.stdout.splitlines():
+            try:
+                r = json.loads(l)
+            except Exception:
+                continue
+            res[r['id']] = r
+            done += 1
+        return p, done
+    chunks = [lines[i::n] for i in range(n)]
+    for ci, ch in enumerate(chunks):
+        p, done = run_chunk(ch, str(ci))
+        while p.returncode != 0 and done < len(ch):
+            # the case after the last completed one crashed
+            bad = ch[done]
+            cid = bad.split()[0]
+            rep = [l for l in p.stderr.splitlines() if 'ERROR:' in l or 'SUMMARY' in l or 'runtime error' in l or '    #0 ' in l or '    #1 ' in l][:6]
+            res[cid] = {'id': cid, 'out': None, 'abort': 'exit %d' % p.returncode, 'stderr': rep}
+            ch = ch[done + 1:]
+            if not ch:
+                break
+            p, done = run_chunk(ch, '%d_r' % ci)
+        if p.returncode != 0 and done == len(ch) and ch:
+            cid = ch[-1].split()[0]
+            rep = [l for l in p.stderr.splitlines() if 'ERROR:' in l or 'SUMMARY' in l or '    #0 ' in l or '    #1 ' in l][:6]
+            res.setdefault(cid, {})['exit_problem'] = {'abort': 'exit %d' % p.returncode, 'stderr': rep}
+    shutil.rmtree(d, ignore_errors=True)
+    return [res.get(l.split()[0], {'id': l.split()[0], 'out': None, 'abort': 'no result'}) for l in lines]
